@@ -44,7 +44,8 @@ package rules
 //
 // Files: c11.go (registration, mutants), c11_benign.go (behaviour-preserving variants), c11_compute.go (path
 // model of Compute, A1, A2 error returns), c11_a2.go (Ways/Relations/options), c11_a3.go, c11_a4.go (A4 and
-// A5 refs@), c11_a5.go, c11_debug.go (C11_DUMP=<function> prints the paths).
+// A5 refs@), c11_a5.go, c11_bound.go (provenance of the window bound), c11_group.go / c11_group_ind.go / c11_list.go (grouping
+// method: finite-domain evaluation in concrete-list mode, inductive proof of the peel-off form), c11_debug.go (C11_DUMP=<function> prints the paths).
 
 import (
 	"go/ast"
@@ -70,7 +71,7 @@ func init() {
 			"(A2) every path of Compute that returns an error returns one of the documented kinds after the required decisions: the datasource's error unchanged needs err != nil && !NotFound(err); *NoHistoryError (ChildID = the requested id) needs NotFound(err) && !IgnoreMissingChildren; *NoVisibleChildError needs FindVisible(<this parent>) == nil && !IgnoreInconsistency; any other error needs a child version decided not visible && !IgnoreInconsistency; on every path of annotate.Ways / annotate.Relations that reaches core.Compute a loop over the variadic options has called each option with the very *core.Options value handed to Compute; where Compute's error may be non-nil it is classified against every exported core error type, a recognised *core.T is returned as &annotate.T with the corresponding fields carried over, every other error is returned unchanged, and nil is never returned instead; each exported option constructor returns a function that sets exactly the same-named core.Options field from the constructor's argument and returns nil; " +
 			"(A3) SetChild of every Parent implementation stores, on every path with a non-nil child, exactly {Version, ChangesetID, Lat, Lon} of <member list>[idx], each from the same-named shared.Child field, stores none of them for a nil child and never uses child.<field> before deciding child != nil; Child.Update() returns Version, ChangesetID, Lat, Lon from the same-named fields and Reverse from ReverseOfPrevious on every path, and its Timestamp obeys the truth table over (Timestamp.Before(osm.CommitInfoStart), Committed.IsZero()): Committed exactly when both are false, Timestamp otherwise, with the tests made on the right fields; FromNode/FromWay/FromRelation return a Child whose ID is FeatureID(), whose Version, ChangesetID, Visible, Timestamp (Lat/Lon, Way) are the same-named fields and whose Committed is *Committed on the paths where that pointer was decided non-nil and the zero time on the others; " +
 			"(A4) every function of package annotate that builds a core.ChildList (make(core.ChildList, len(X))) calls X.SortByIDVersion() before the fill loop on every path, every iteration i of that loop stores c = shared.From…(X[i]) with c.VersionIndex = i at list[i] (no iteration without the store, no break), the filled list is what is returned, ReverseOfPrevious is IsReverse(X[i], X[i-1]) only after deciding i != 0; every Datasourcer.Get of package annotate returns nil, the result of such a builder or the user's AsChildren result; the comparator behind each SortByIDVersion, evaluated on all 9 relations of (ID_i vs ID_j, Version_i vs Version_j), is ID_i < ID_j || (ID_i == ID_j && Version_i < Version_j); " +
-			"(A5) locations are recorded as loc{i, j} under refs[j] of parents[i].Refs() and a ref is skipped only after deciding annotated[j] and !opts.ChildFilter(refs[j]); the parent processed is parents[G[0].<parent field>] for a group G produced by the grouping method from the locations of the fetched child, and that method yields maximal runs of one parent index; SetChild stores the result of the child version selector (a function or method (ChildList, ...) -> *shared.Child that searches the list: FindVisible) called with parent.ChangesetID(), a time derived from the parent and opts.Threshold at cl.<index field> for the locations cl of the group; updates are child[k].Update() for the variable k (plus a constant) of one loop with the strict condition k < end and k advanced by one — or for the elements of a range over child[start:end] —, k starts at cur.VersionIndex+1 (cur != nil), VersionBefore(<time of parent>).VersionIndex+1 (cur == nil, non-nil) or 0, within a group only parents[I] and — after deciding I < len(parents)-1 — parents[I+1] are consulted and the bound depends on parents[I+1] when it exists, the bound is 0 or <version>.VersionIndex + n where the PROVENANCE of the version fixes n: the last list element when no next parent version exists (n = 1), the result of the selector called with only a time derived from the next parent (the last version before the next parent lies inside this parent's interval, visible or not: n = 1, after deciding it non-nil), the result of the selector called with the next parent's changeset (the version the next parent starts from is the exclusive end: n = 0, or n = 1 exactly on the paths that decided its time Before a time derived from the next parent); any other version (e.g. the current child of this parent) or constant is a violation, Update() is called only after deciding child[k].Visible, every value appended to an update list that is (a local copy of) child[k].Update() has Index = cl.<index field> for the location cl of the iteration (range or counting loop) over the group and no other field overwritten, wherever Update() itself is called, and every such iteration appends exactly one, the list accumulated by the window loop is empty at loop entry and is appended to results[I], results = make(…, len(parents)) is what the success path returns; Refs() and SetChild of every Parent implementation address the same member list at the same positions (ids[i] = L[i].FeatureID(), annotated[i] = L[i].Version != 0); " +
+			"(A5) locations are recorded as loc{i, j} under refs[j] of parents[i].Refs() and a ref is skipped only after deciding annotated[j] and !opts.ChildFilter(refs[j]); the parent processed is parents[G[0].<parent field>] for a group G produced by the grouping method from the locations of the fetched child, and that method returns the partition of the list into maximal runs of equal parent index, in order (decided by finite-domain evaluation of the method on every concrete location list of length 0..5 with every pattern of equal/different adjacent parents, whatever its spelling; for the peel-off re-slicing spelling additionally proved for any length); SetChild stores the result of the child version selector (a function or method (ChildList, ...) -> *shared.Child that searches the list: FindVisible) called with parent.ChangesetID(), a time derived from the parent and opts.Threshold at cl.<index field> for the locations cl of the group; updates are child[k].Update() for the variable k (plus a constant) of one loop with the strict condition k < end and k advanced by one — or for the elements of a range over child[start:end] —, k starts at cur.VersionIndex+1 (cur != nil), VersionBefore(<time of parent>).VersionIndex+1 (cur == nil, non-nil) or 0, within a group only parents[I] and — after deciding I < len(parents)-1 — parents[I+1] are consulted and the bound depends on parents[I+1] when it exists, the bound is 0 or <version>.VersionIndex + n where the PROVENANCE of the version fixes n: the last list element when no next parent version exists (n = 1), the result of the selector called with only a time derived from the next parent (the last version before the next parent lies inside this parent's interval, visible or not: n = 1, after deciding it non-nil), the result of the selector called with the next parent's changeset (the version the next parent starts from is the exclusive end: n = 0, or n = 1 exactly on the paths that decided its time Before a time derived from the next parent); any other version (e.g. the current child of this parent) or constant is a violation, Update() is called only after deciding child[k].Visible, every value appended to an update list that is (a local copy of) child[k].Update() has Index = cl.<index field> for the location cl of the iteration (range or counting loop) over the group and no other field overwritten, wherever Update() itself is called, and every such iteration appends exactly one, the list accumulated by the window loop is empty at loop entry and is appended to results[I], results = make(…, len(parents)) is what the success path returns; Refs() and SetChild of every Parent implementation address the same member list at the same positions (ids[i] = L[i].FeatureID(), annotated[i] = L[i].Version != 0); " +
 			"(A6) every success path of Compute runs a loop whose every iteration calls SortByIndex on the result list at its position, and the comparator behind osm.Updates.SortByIndex, evaluated on all 27 relations of (Index, Timestamp, Version) of two updates, is the strict lexicographic order: updates of one child location are applied oldest version last-wins even when timestamps are equal (sort.Sort is not stable). " +
 			"NOT decided: the arithmetic inside FindVisible / VersionBefore and the time comparisons of nextVersionIndex (e.g. whether a boundary comparison is < or <=; which times are compared), the time-travel consequence (ApplyUpdatesUpTo(t) reproduces the state at t), correctness of user-supplied AsChildren datasources (their VersionIndex is trusted), Way/Relation.applyUpdate (C15.U4), that ApplyUpdatesUpTo applies the updates in slice order (C15) and the other comparators of package osm (C12). A code shape the interpreter cannot follow (goto, fallthrough, defer/go/select, address of a non-struct local, more than 20000 paths) makes the affected obligations Unknown (fails), never silently OK.",
 		Assumptions: []string{
@@ -152,7 +153,6 @@ func init() {
 				Find:       "\t\t\tif !parent.Visible() {\n\t\t\t\tcontinue\n\t\t\t}\n\n\t\t\tvar nextParent Parent\n\t\t\tif parentIndex < len(parents)-1 {\n\t\t\t\tnextParent = parents[parentIndex+1]\n\t\t\t}\n",
 				Replace:    "\t\t\tvar nextParent Parent\n\t\t\tif parentIndex < len(parents)-1 {\n\t\t\t\tnextParent = parents[parentIndex+1]\n\t\t\t}\n\t\t\tif nextParent != nil && !nextParent.Visible() {\n\t\t\t\tcontinue\n\t\t\t}\n",
 				ExpectRule: "A1", ExpectConstruct: "setchild@Compute"},
-			{Name: "group-extends-without-bound-test", File: cmp, Find: "for end < len(locs) && locs[end].Parent == p {", Replace: "for end < len(locs) && (locs[end].Parent == p || end == 0) {", ExpectRule: "A5", ExpectConstruct: "group@"},
 			{Name: "inconsistency-error-for-visible-version", File: cmp,
 				Find:       "\t\t\t\t\tif !opts.IgnoreInconsistency {\n\t\t\t\t\t\treturn nil, fmt.Errorf(",
 				Replace:    "\t\t\t\t\tif !opts.IgnoreInconsistency || child[k].Version == 0 {\n\t\t\t\t\t\treturn nil, fmt.Errorf(",
@@ -220,6 +220,27 @@ func init() {
 				Find:       "\t\treturn child[len(child)-1].VersionIndex + 1\n",
 				Replace:    "\t\treturn child[len(child)-1].VersionIndex\n",
 				ExpectRule: "A5", ExpectConstruct: "window@Compute bound"},
+			// ---- round 5: the grouping method
+			{Name: "groupby-last-group-dropped", File: cmp,
+				Find:       "\tvar result []childLocs\n\n\tfor len(locs) > 0 {\n\t\tp := locs[0].Parent\n\t\tend := 0\n\n\t\tfor end < len(locs) && locs[end].Parent == p {\n\t\t\tend++\n\t\t}\n\n\t\tresult = append(result, locs[:end])\n\t\tlocs = locs[end:]\n\t}\n\n\treturn result\n",
+				Replace:    "\tvar result []childLocs\n\tstart := 0\n\tfor i := 1; i < len(locs); i++ {\n\t\tif locs[i].Parent != locs[i-1].Parent {\n\t\t\tresult = append(result, locs[start:i])\n\t\t\tstart = i\n\t\t}\n\t}\n\n\treturn result\n",
+				ExpectRule: "A5", ExpectConstruct: "group@childLocs.GroupByParent"},
+			{Name: "groupby-boundary-against-list-head", File: cmp,
+				Find:       "\tvar result []childLocs\n\n\tfor len(locs) > 0 {\n\t\tp := locs[0].Parent\n\t\tend := 0\n\n\t\tfor end < len(locs) && locs[end].Parent == p {\n\t\t\tend++\n\t\t}\n\n\t\tresult = append(result, locs[:end])\n\t\tlocs = locs[end:]\n\t}\n\n\treturn result\n",
+				Replace:    "\tvar result []childLocs\n\n\tstart := 0\n\tfor end := 1; end <= len(locs); end++ {\n\t\tif end == len(locs) || locs[end].Parent != locs[0].Parent {\n\t\t\tresult = append(result, locs[start:end])\n\t\t\tstart = end\n\t\t}\n\t}\n\n\treturn result\n",
+				ExpectRule: "A5", ExpectConstruct: "group@childLocs.GroupByParent"},
+			{Name: "groupby-run-split-at-list-end", File: cmp,
+				Find:       "for end < len(locs) && locs[end].Parent == p {",
+				Replace:    "for end < len(locs)-1 && locs[end].Parent == p {",
+				ExpectRule: "A5", ExpectConstruct: "group@childLocs.GroupByParent"},
+			{Name: "groupby-groups-in-reverse", File: cmp,
+				Find:       "\t\tresult = append(result, locs[:end])\n",
+				Replace:    "\t\tresult = append([]childLocs{locs[:end]}, result...)\n",
+				ExpectRule: "A5", ExpectConstruct: "group@childLocs.GroupByParent"},
+			{Name: "groupby-markers-run-never-restarts", File: cmp,
+				Find:       "\tvar result []childLocs\n\n\tfor len(locs) > 0 {\n\t\tp := locs[0].Parent\n\t\tend := 0\n\n\t\tfor end < len(locs) && locs[end].Parent == p {\n\t\t\tend++\n\t\t}\n\n\t\tresult = append(result, locs[:end])\n\t\tlocs = locs[end:]\n\t}\n\n\treturn result\n",
+				Replace:    "\tvar result []childLocs\n\n\tstart := 0\n\tfor end := 1; end <= len(locs); end++ {\n\t\tif end == len(locs) || locs[end].Parent != locs[start].Parent {\n\t\t\tresult = append(result, locs[start:end])\n\t\t}\n\t}\n\n\treturn result\n",
+				ExpectRule: "A5", ExpectConstruct: "group@childLocs.GroupByParent"},
 		},
 	})
 }
